@@ -10,7 +10,8 @@
 (* (forward-mode reference carried along), so that "J^T ybar" is known exactly.      *)
 EXTENDS Integers, Sequences, FiniteSets, TLC, TPS
 
-CONSTANTS N,             \* number of cells of the input vector
+CONSTANTS N,             \* number of cells of each input vector
+          NI,            \* number of independent input vectors (1 or 2): the second one is wrapped after an operation has been recorded
           P,             \* number of directions
           MaxInstr,      \* bound on recorded instructions after the fixed prefix (in, zeros)
           MaxHist,       \* bound on the number of calls after recording
@@ -41,20 +42,21 @@ NoneV == [buf |-> 0, cells |-> <<>>, arr |-> FALSE]
 NoRet == [k |-> "none"]
 
 \* ------------------------------------------------------------------ cells
+NT == N * NI          \* number of input cells = number of derivative slots carried by every cell
 Dc == cur.D
 ZeroS(D) == SZero(D)
-CZero(D) == [p \in 1..P |-> [v |-> SZero(D), dv |-> [j \in 1..N |-> SZero(D)]]]
-CConst(c, D) == [p \in 1..P |-> [v |-> SConst(c, D), dv |-> [j \in 1..N |-> SZero(D)]]]
-CIn(pt, j, D) == [p \in 1..P |-> [v |-> pt[p][j], dv |-> [jj \in 1..N |-> IF jj = j THEN SOne(D) ELSE SZero(D)]]]
-CAdd(x, y) == [p \in 1..P |-> [v |-> SAdd(x[p].v, y[p].v), dv |-> [j \in 1..N |-> SAdd(x[p].dv[j], y[p].dv[j])]]]
-CSub(x, y) == [p \in 1..P |-> [v |-> SSub(x[p].v, y[p].v), dv |-> [j \in 1..N |-> SSub(x[p].dv[j], y[p].dv[j])]]]
-CNeg(x)    == [p \in 1..P |-> [v |-> SNeg(x[p].v), dv |-> [j \in 1..N |-> SNeg(x[p].dv[j])]]]
+CZero(D) == [p \in 1..P |-> [v |-> SZero(D), dv |-> [j \in 1..NT |-> SZero(D)]]]
+CConst(c, D) == [p \in 1..P |-> [v |-> SConst(c, D), dv |-> [j \in 1..NT |-> SZero(D)]]]
+CIn(pt, j, D) == [p \in 1..P |-> [v |-> pt[p][j], dv |-> [jj \in 1..NT |-> IF jj = j THEN SOne(D) ELSE SZero(D)]]]      \* j: input slot 1..NT
+CAdd(x, y) == [p \in 1..P |-> [v |-> SAdd(x[p].v, y[p].v), dv |-> [j \in 1..NT |-> SAdd(x[p].dv[j], y[p].dv[j])]]]
+CSub(x, y) == [p \in 1..P |-> [v |-> SSub(x[p].v, y[p].v), dv |-> [j \in 1..NT |-> SSub(x[p].dv[j], y[p].dv[j])]]]
+CNeg(x)    == [p \in 1..P |-> [v |-> SNeg(x[p].v), dv |-> [j \in 1..NT |-> SNeg(x[p].dv[j])]]]
 CMul(x, y) == [p \in 1..P |-> [v |-> SMul(x[p].v, y[p].v),
-                               dv |-> [j \in 1..N |-> SAdd(SMul(x[p].dv[j], y[p].v), SMul(x[p].v, y[p].dv[j]))]]]
+                               dv |-> [j \in 1..NT |-> SAdd(SMul(x[p].dv[j], y[p].v), SMul(x[p].v, y[p].dv[j]))]]]
 CDiv(x, y) == [p \in 1..P |-> LET z == TLCEval(SDiv(x[p].v, y[p].v)) IN
-                              [v |-> z, dv |-> [j \in 1..N |-> SDiv(SSub(x[p].dv[j], SMul(z, y[p].dv[j])), y[p].v)]]]
+                              [v |-> z, dv |-> [j \in 1..NT |-> SDiv(SSub(x[p].dv[j], SMul(z, y[p].dv[j])), y[p].v)]]]
 CPow(x, n) == [p \in 1..P |-> [v |-> SPowInt(x[p].v, n),
-                               dv |-> [j \in 1..N |-> IF n = 0 THEN SZero(Len(x[p].v))
+                               dv |-> [j \in 1..NT |-> IF n = 0 THEN SZero(Len(x[p].v))
                                         ELSE SMul(SScale(RInt(n), SPowInt(x[p].v, n - 1)), x[p].dv[j])]]]
 CNonZero(x) == \A p \in 1..P : x[p].v[1] # RZero
 COp(op, x, y) == CASE op = "add" -> CAdd(x, y) [] op = "sub" -> CSub(x, y) [] op = "mul" -> CMul(x, y) [] op = "div" -> CDiv(x, y)
@@ -70,6 +72,8 @@ Fresh(h, contents, isarr) == [h |-> Alloc(h, contents), o |-> [buf |-> Len(h) + 
 Step(h, v, ins, pt, D, kind, oldsaved, refresh) ==
   CASE ins.op = "in" ->
          LET r == Fresh(h, [j \in 1..N |-> CIn(pt, j, D)], TRUE) IN [h |-> r.h, o |-> r.o, sv |-> <<>>, ok |-> TRUE]
+    [] ins.op = "in2" ->      \* the second independent vector: input slots N+1 .. 2N
+         LET r == Fresh(h, [j \in 1..N |-> CIn(pt, N + j, D)], TRUE) IN [h |-> r.h, o |-> r.o, sv |-> <<>>, ok |-> TRUE]
     [] ins.op = "const" ->
          LET r == Fresh(h, <<CConst(ins.c, D)>>, FALSE) IN [h |-> r.h, o |-> r.o, sv |-> <<>>, ok |-> TRUE]
     [] ins.op = "zeros" ->
@@ -138,7 +142,7 @@ RefCells(pt, D, kind) == LET r == TLCEval(RefRun(pt, D, kind)) IN Read(r.h, r.v[
 ValOf(cells) == [i \in 1..Len(cells) |-> [p \in 1..P |-> cells[i][p].v]]
 \* ybar^T J along the curve: per input cell j, per p: sum_i ybar[i][p] * dv_j(y_i)
 AdjOf(cells, ybar) ==
-  [j \in 1..N |-> [p \in 1..P |->
+  [j \in 1..NT |-> [p \in 1..P |->
      LET D == Len(cells[1][p].v)
          acc[i \in 0..Len(cells)] == IF i = 0 THEN SZero(D) ELSE SAdd(acc[i - 1], SMul(ybar[i][p], cells[i][p].dv[j]))
      IN acc[Len(cells)]]]
@@ -192,7 +196,7 @@ AccInto(bh, o, contrib, k) ==
 PbStep(k, h, bh, b, V, S) ==
   LET ins == prog[k] IN
   IF ~recd[k] THEN [h |-> h, bh |-> bh]
-  ELSE CASE ins.op \in {"in", "zeros", "const", "get", "rev"} -> [h |-> h, bh |-> bh]
+  ELSE CASE ins.op \in {"in", "in2", "zeros", "const", "get", "rev"} -> [h |-> h, bh |-> bh]
     [] ins.op = "set" ->
          LET tb == b[ins.a]  c == tb.cells[ins.i]
              yb == bh[tb.buf][c]
@@ -267,7 +271,9 @@ SweepWith(h, V, S, ybar, D) ==
       RECURSIVE seed(_, _)
       seed(i, hh) == IF i > Len(db.cells) THEN hh ELSE seed(i + 1, [hh EXCEPT ![db.buf][db.cells[i]] = ybar[i]])
       r == TLCEval(PbFrom(Len(prog), h, seed(1, bi.bh), bi.b, V, S))
-  IN [h |-> IF RollForward THEN Redo(1, r.h, V) ELSE r.h, xbar |-> Read(r.bh, bi.b[1])]
+      in2 == {k \in 1..Len(prog) : prog[k].op = "in2"}
+  IN [h |-> IF RollForward THEN Redo(1, r.h, V) ELSE r.h,
+      xbar |-> Read(r.bh, bi.b[1]) \o (IF in2 = {} THEN <<>> ELSE Read(r.bh, bi.b[CHOOSE k \in in2 : TRUE]))]
 Sweep(h, ybar) == SweepWith(h, val, saved, ybar, Dc)
 
 \* ------------------------------------------------------------------ recording
@@ -294,12 +300,14 @@ Instrs ==
   \cup (IF "sum" \in Ops THEN {Ins("sum", a, 0, 0, 0, RZero) : a \in ArrayNodes \cap Usable} ELSE {})
   \cup (IF "const" \in Ops THEN {Ins("const", 0, 0, 0, 0, c) : c \in ConstCat} ELSE {})
 
-RecPt == [D |-> 1, x |-> [p \in 1..P |-> [j \in 1..N |-> <<RInt(j)>>]]]      \* the graph is recorded at (1, 2, ..)
+RecPt == [D |-> 1, x |-> [p \in 1..P |-> [j \in 1..NT |-> <<RInt(j)>>]]]      \* the graph is recorded at (1, 2, ..)
 \* The fixed beginning of every program.  "plain": the input vector and a zeros buffer.  "buffered": additionally
 \* g1 = x[0]; g2 = x[1]; buf[0] = g1; v = buf[0]  (a view of a written buffer cell), so that MaxInstr further
 \* instructions reach programs that read a cell, overwrite it and use both values.
 PrefixProg ==
   IF Prefix = "plain" THEN << Ins("in", 0, 0, 0, 0, RZero), Ins("zeros", 0, 0, 0, 0, RZero) >>
+  ELSE IF Prefix = "two" THEN     \* an operation on x is recorded BEFORE the second independent z is wrapped
+       << Ins("in", 0, 0, 0, 0, RZero), Ins("zeros", 0, 0, 0, 0, RZero), Ins("get", 1, 0, 1, 0, RZero), Ins("in2", 0, 0, 0, 0, RZero) >>
   ELSE << Ins("in", 0, 0, 0, 0, RZero), Ins("zeros", 0, 0, 0, 0, RZero),
           Ins("get", 1, 0, 1, 0, RZero), Ins("get", 1, 0, 2, 0, RZero),
           Ins("set", 2, 3, 1, 0, RZero), Ins("get", 2, 0, 1, 0, RZero) >>
@@ -415,7 +423,7 @@ RefDrv(name, x, v, w) ==
     [] name = "vec_hess" -> [k \in 1..N |-> [j \in 1..N |-> Dot(w, [i \in 1..DepLen |-> RefHessDir(x, Unit(k))[i][j]])]]
 \* what the driver returns, computed the driver's way on the graph state
 Drv(name, x, v, w) ==
-  /\ CanCall /\ "drv" \in Ops
+  /\ CanCall /\ "drv" \in Ops /\ NI = 1
   /\ name \in {"gradient", "hess_vec", "hessian"} => DepLen = 1
   /\ Len(w) = DepLen
   \* arguments a driver does not take are fixed to one catalogue element (no spurious branching)
